@@ -1,6 +1,8 @@
 (* Props/C11.v — A crash at any instant leaves a consistent, usable workspace.  Statements only. *)
 From RN Require Import Base.Bytes Model.Edits Model.Fs Model.ApplyModel Model.Lock Proofs.LockP Proofs.EditsP.
 From RN Require Proofs.Apply2P.
+From Coq Require Import List.
+From RN Require Import Proofs.ApplySpecP Proofs.CrashRenameP.
 
 (* the tree a kill before operation k leaves behind is, by definition of the model, the result of a
    prefix of the fault-free operation sequence; nothing is ever executed out of order *)
@@ -36,6 +38,54 @@ Theorem C11_crash_unplanned_untouched : forall p t k q n,
   lookup (crash_prefix p t k) q = Some n.
 Proof. exact Apply2P.crash_unplanned_untouched. Qed.
 
+(* ---- PLANS WITH RENAMES AND CONTENT EDITS (Proofs/CrashRenameP.v), under plan_ok alone, case-only renames included ----
+   loc p j q      : the original path q moved by the first j executed renames (loc p 0 q = q; after all of them: final_path)
+   planned c es   : the reference splice of the file's sorted edits
+   files_of p     : the planned files in the order apply edits them
+   After a kill before ANY operation k there are i, j and at most one extra entry such that:
+   every regular file of the original tree is present at loc p j of its path, with its mode, holding either its complete original or
+   its complete planned content; every other entry (directory, symlink) is present there exactly as it was; and whatever else is in
+   the tree is the one extra entry, which is the temp file of the file being rewritten (empty, or holding the complete planned
+   content) or the case-sensitivity probe.  All entries have moved by the SAME j renames: a renamed directory is never split
+   between its old and its new name. *)
+Theorem C11_crash_files_intact : forall p t k,
+  plan_ok p t ->
+  let T := crash_prefix p t k in
+  exists i j extra,
+    (j <= length (ap_renames p))%nat /\ extra_ok p t i j extra /\
+    (forall q m c, lookup t q = Some (File m c) ->
+       exists c', lookup T (loc p j q) = Some (File m c') /\
+                  (c' = c \/ exists es, In (q, es) (files_of p) /\ c' = planned c es)) /\
+    (forall q n, lookup t q = Some n -> (forall m c, n <> File m c) -> lookup T (loc p j q) = Some n) /\
+    (forall q' n', lookup T q' = Some n' -> In (q', n') extra \/ exists q, In q (keys t) /\ q' = loc p j q).
+Proof. exact crash_files_intact. Qed.
+
+(* once the content stage is over every edited file has its complete planned content, wherever the renames have taken it so far *)
+Theorem C11_crash_edited_after_content : forall p t k h m c,
+  plan_ok p t -> (content_len p t <= k)%nat -> In h (ap_hunks p) -> lookup t (ah_file h) = Some (File m c) ->
+  exists j, (j <= length (ap_renames p))%nat /\
+    lookup (crash_prefix p t k) (loc p j (ah_file h))
+    = Some (File m (planned c (edits_of (ap_hunks p) (ah_file h)))).
+Proof. exact crash_edited_after_content. Qed.
+
+(* a kill after the last operation leaves the complete result, which is the plan's meaning *)
+Theorem C11_crash_after_last_op : forall p t k,
+  plan_ok p t -> (length (r_trace (apply_core no_fault p t)) <= k)%nat ->
+  crash_prefix p t k = r_fs (apply_core no_fault p t) /\
+  forall q, lookup (crash_prefix p t k) q = lookup (spec_apply p t) q.
+Proof. exact crash_after_last_op. Qed.
+
+(* non-vacuity and an independent check: for the witness plan (a directory rename containing an edited, renamed file) and for a plan
+   with four nested case-only renames, EVERY crash position satisfies a boolean checker of the three clauses *)
+Theorem C11_every_crash_position_witness :
+  forallb (crash_checkb Witness.p0 Witness.t0) (all_positions Witness.p0 Witness.t0) = true /\
+  forallb (crash_checkb CrashCaseOnly.p1 RenameP2.Example1.t1) (all_positions CrashCaseOnly.p1 RenameP2.Example1.t1) = true.
+Proof. split; [exact CrashWitness.p0_every_crash_position|exact CrashCaseOnly.p1_every_crash_position]. Qed.
+
+Print Assumptions C11_crash_files_intact.
+Print Assumptions C11_crash_edited_after_content.
+Print Assumptions C11_crash_after_last_op.
+Print Assumptions C11_every_crash_position_witness.
 Print Assumptions C11_crash_prefix_is_prefix.
 Print Assumptions C11_crash_at_zero_unchanged.
 Print Assumptions C11_lock_created_with_content.
